@@ -261,7 +261,7 @@ theorem cap_seven_displaces_user_word :
   refine ⟨by decide, by decide, by decide, ?_, ?_⟩
   · have h : enhanceTerms user7 [tk 8] = user7 ++ [tk 8] := by decide
     rw [h]
-    simp [selectTopTerms, scoreTermsAux, sortDesc, user7, tk, idx0, T0, look, preserveCount, List.mergeSort,
+    simp [selectTopTerms, scoreTermsAux, sortDesc, user7, tk, idx0, T0, look, preserveCount, Gen.SearchParams.preserveCount, List.mergeSort,
       List.MergeSort.Internal.splitInTwo, List.merge, ScoreOps.lt]
   · simp [selectTopTerms, user7]
 
